@@ -25,8 +25,8 @@ METHODS = ["GET", "post", "DELETE"]
 URLS = ["https://Example.com/p", "HTTPS://EXAMPLE.COM:443/p", "https://example.com:8443/p", "http://example.com:80/a/b", "http://example.com:443/x",
         "https://example.com:80/x", "https://example.com", "https://example.com/", "https://example.com/a%20b/c", "https://example.com/p;v=1",
         "http://localhost:8080/r"]
-QUERIES = ["", "n=e%CC%81&m=%C3%A9", "a=1", "b=2&a=1&a=0", "a=%20+b", "c=%7E~-._", "na%C3%AFve=%E2%9C%93", "x=&y", "a=1&a=1", "q=%26%3D%25", "realm=foo", "oauth_zzz=1%252"]
-BODIES = [None, "", "b=2", "a=1&z=%20", "a=1", "realm=r1", "k=v+w&k=v%2Bw"]
+QUERIES = ["", "n=e%CC%81&m=%C3%A9", "a=1", "b=2&a=1&a=0", "a=%20+b", "c=%7E~-._", "na%C3%AFve=%E2%9C%93", "x=&y", "a=1&a=1", "q=%26%3D%25", "realm=foo", "oauth_zzz=1%252", "m=%c3%a9&u=%C3%A9"]
+BODIES = [None, "", "b=2", "a=1&z=%20", "a=1", "realm=r1", "k=v+w&k=v%2Bw", "title=caf%c3%a9&qty=1", "p=%2f%2F&q=%e2%9c%93"]     # (lower-case hex digits in escapes are valid)
 PLACEMENTS = ["HEADER", "QUERY", "BODY"]
 SIGMETHODS = ["HMAC-SHA1", "RSA-SHA1", "PLAINTEXT"]
 CALLBACKS = [None, "https://c.example/cb", "https://c.example/cb?x=%20y", "oob"]
